@@ -87,6 +87,7 @@ void vsim_probe_set(vsim_probe_cb cb, void *arg);
    current are corrupted after being made */
 void vsim_sign_corrupt(int node, int count);
 uint64_t vsim_sign_corrupted(void);
+void     vsim_sign_mode(int mode);                /* 0: flip a byte of the produced signature; 1: sign data that differs in one bit (a well-formed signature over other data) */
 
 /* byzantine peer (guarded hook in /repo): while `node` is current, skip the next `count` handshake messages of type `hs_type` (254 = CCS) */
 void vsim_hs_skip(int node, int hs_type, int count);
@@ -95,6 +96,7 @@ uint64_t vsim_hs_skipped(void);
 /* byzantine sender: while `node` is current, the plaintext of its nth AEAD seal from now (0-based) is edited before sealing
    (w bytes at off % (len-w+1): mode 0 = val, 1 = +1, 2 = -1, 3 = xor val), so the peer authenticates and then parses it */
 void vsim_pt_mutate(int node, int nth, int64_t off, int w, int mode, uint32_t val);
+void     vsim_pt_short_finished(int node, uint32_t keep);   /* the node's next Finished is sealed with only `keep` bytes of (correct) verify_data */
 uint64_t vsim_pt_mutated(void);
 
 uint64_t vsim_fnv(const void *p, size_t n);
